@@ -40,7 +40,7 @@ func init() {
 			return l
 		},
 		Floors: func(tier string) map[string]int64 {
-			return map[string]int64{"line_states": 40000, "derived_positions": 1000, "pins_found": 50, "checks_seen": 20, "mates_seen": 1, "captures_found": 1000}
+			return map[string]int64{"line_states": 40000, "derived_positions": 1000, "pins_found": 50, "checks_seen": 20, "mates_seen": 1, "captures_found": 1000, "ep_only_defence_positions": 8, "double_pin_shapes": 500}
 		},
 		Run: runC06,
 	})
@@ -205,8 +205,19 @@ func runC06(c *fw.Ctx, cs fw.Case) {
 		}
 	case "derived":
 		r := cs.Rand()
+		if p, ok := gen.EPOnlyDefence(r); ok {
+			c.Count("ep_only_defence_positions", 1)
+			derivedChecks(c, p)
+		}
 		for i := 0; i < cs.N; i++ {
 			h := randomHist(r, 80)
+			switch i % 5 {
+			case 1:
+				h = gen.Hist{Start: gen.TacticOK(r, r.Intn(gen.NumTactics))}
+			case 3:
+				h = gen.Hist{Start: gen.TacticOK(r, 12)}
+				c.Count("double_pin_shapes", 1)
+			}
 			derivedChecks(c, h.Final())
 			if i == 0 && cs.Idx%8 == 0 {
 				fp := h.Final()
